@@ -10,9 +10,9 @@ import (
 	"os"
 	"time"
 
+	"github.com/pingcap/failpoint"
 	"github.com/pingcap/log"
 	"github.com/tikv/client-go/v2/util"
-	"github.com/pingcap/failpoint"
 	"github.com/tikv/client-go/v2/verifx/hub"
 	"github.com/tikv/client-go/v2/verifx/vx"
 	"go.uber.org/zap"
@@ -42,18 +42,34 @@ func main() {
 	}
 	log.ReplaceGlobals(zap.NewNop(), &log.ZapProperties{})
 	util.EnableFailpoints()
+	// back-off budgets are consumed without sleeping; a store stays "reachable" after a transport error (the liveness probe
+	// would otherwise dial the mock store's address over real gRPC and keep the store blacklisted on a wall-clock timer)
 	must(failpoint.Enable("tikvclient/fastBackoffBySkipSleep", "return(true)"))
+	must(failpoint.Enable("tikvclient/injectLiveness", `return("reachable")`))
 	rec = hub.NewRecorder(run)
 	rnd = vx.NewRand(run.Seed)
 	t0 := time.Now()
 	switch *prop {
 	case "smoke":
 		smoke()
+	case "C01":
+		runC01()
+	case "C02":
+		runC02()
+	case "C03":
+		runC03()
+	case "C04":
+		runC04()
+	case "C05":
+		runC05()
+	case "C06":
+		runC06()
 	default:
 		fmt.Fprintln(os.Stderr, "unknown property", *prop)
 		os.Exit(2)
 	}
 	run.Stats["wall_ms"] = int(time.Since(t0).Milliseconds())
+	run.Stats["scenarios"] = rec.Cases()
 }
 
 func must(err error) {
